@@ -701,3 +701,37 @@ package core
 //@   ensures[C04.concurrent_action_at_most_once] actionRuns <= old(actionRuns) + 1
 //@   ensures[C04.concurrent_runs_own_action]     actionRuns == old(actionRuns) + 1 ==> lastDone == era
 //@   assert[C04.concurrent_value_only_when_complete] at "append(w.Values, era.Value)": era.Disposition == Complete
+
+// ---- C03: query semantics (data flow between sub-queries; the matcher and otto are opaque) -------
+// Interface contract of Query.Exec as ghost records: what it was given and what it returned.
+//@ ghost execIn []Bindings
+//@ ghost execOut []Bindings
+//@ iface Query.Exec
+//@   ghost-ensures execIn == old(qr.Bss) && (result1 == nil ==> result0 != nil && execOut == result0.Bss)
+//@   also-modifies execIn, execOut
+
+//@ func (EmptyQuery).Exec
+//@   ensures[C03.empty_is_identity] result1 == nil && result0 != nil && result0.Bss == qr.Bss
+
+//@ func (AndQuery).Exec
+//@   ensures[C03.and_empty_is_identity] len(a.Conjuncts) == 0 ==> result1 == nil && result0.Bss == qr.Bss
+//@   ensures[C03.and_result_is_last_conjunct] result1 == nil && len(a.Conjuncts) > 0 ==> result0.Bss == execOut
+//@   loop 1: invariant[C03.and_threads_results] (rangeindex == 0 - 1 && qr.Bss == old(qr.Bss)) || (rangeindex >= 0 && qr.Bss == execOut)
+//@   assert[C03.and_left_to_right_composition] at "q.Exec(ctx, loc, qc, qr)": (rangeindex == 0 - 1 && qr.Bss == old(qr.Bss)) || (rangeindex >= 0 && qr.Bss == execOut)
+
+//@ func (OrQuery).Exec
+//@   assert[C03.or_each_disjunct_sees_one_binding] at "q.Exec(ctx, loc, qc, qr)": len(qr.Bss) == 1 && qr.Bss[0] == bs
+//@   assert[C03.or_concatenates_disjunct_results]  at "append(acc.Bss, more.Bss...)": more.Bss == execOut
+
+//@ func (NotQuery).Exec
+//@   assert[C03.not_tries_one_binding]      at "o.Negated.Exec(ctx, loc, qc, trial)": len(trial.Bss) == 1 && trial.Bss[0] == candidate
+//@   assert[C03.not_keeps_iff_nothing_found] at "append(acc, candidate)": len(execOut) == 0 && len(execIn) == 1 && execIn[0] == candidate
+
+//@ func (*Bindings).Bind
+//@   assert[C03.bind_builds_a_fresh_array] at "append(bound, bs.Bind(ctx, x))": fresh(arr(bound))
+//@   assert[C03.bind_builds_a_fresh_map]   at "bound[k]": fresh(bound)
+
+//@ func (PatternQuery).Exec
+//@   assert[C03.pattern_searches_the_bound_pattern] at "loc.SearchLocations(ctx, locations, m)": is(bound, map[string]interface{}) && m == bound.(map[string]interface{})
+//@   assert[C03.pattern_binds_each_incoming_binding] at "bs.Bind(ctx, interface{}(p.Pattern))": true
+//@   assert[C03.pattern_extends_incoming_binding]   at "ExtendBindings(ctx, &bs, &more)": true
